@@ -1,4 +1,6 @@
 import GoImap.Model.ClientConc
+import GoImap.Lemmas.ClientConcTags
+import GoImap.Lemmas.ClientConcOnce
 /-!
   C13 — the client is safe for concurrent use. Property theorems about `GoImap.ClientConc`.
 
@@ -40,5 +42,52 @@ theorem f26_idle_counterexample :
     let s := run Legacy.f26idle (init Legacy.f26idle scF26) [5, 4, 4, 4, 4, 4, 1, 0, 0, 0]
     (s.contAddressed, s.contResumed) = ([0], [1]) := by
   decide
+
+
+/-! ### theorems for all schedules -/
+
+/-- tags stay unique: in every reachable state of every variant, two registered commands with the
+    same tag are the same command (and every allocated tag is between 1 and the counter) -/
+theorem tags_unique (v : Variant) (sc : Scenario) (sched : List Nat) :
+    let s := run v (init v sc) sched
+    (∀ c d, (s.cmd c).registered = true → (s.cmd d).registered = true →
+        (s.cmd c).ltag = (s.cmd d).ltag → c = d) ∧
+    (∀ c, (s.cmd c).registered = true → 1 ≤ (s.cmd c).ltag ∧ (s.cmd c).ltag ≤ s.cmdTag) := by
+  intro s
+  have h := tagOK_run v sched (init v sc) (tagOK_init v sc)
+  exact ⟨h.inj, fun c hc => ⟨h.pos c hc, h.le c⟩⟩
+
+/-- never twice: at every point of every schedule every command has been completed at most once
+    (`sent` counts the sends on its `done` channel), an unregistered command not at all, and a
+    command that is still queued or about to be completed not yet -/
+theorem complete_at_most_once (v : Variant) (sc : Scenario) (sched : List Nat) :
+    let s := run v (init v sc) sched
+    (∀ c, (s.cmd c).sent ≤ 1) ∧
+    (∀ c, (s.cmd c).registered = false → (s.cmd c).sent = 0) ∧
+    (∀ c, c ∈ s.pending → (s.cmd c).sent = 0) ∧
+    s.pending.Nodup := by
+  intro s
+  have h := once_run v sched (init v sc) (once_init v sc)
+  exact ⟨h.le, fun c hc => (h.unreg c hc).2.1, fun c hc => (h.pend c hc).1, h.nodup⟩
+
+/-- non-vacuity: a schedule on which two commands are registered, answered and completed -/
+example :
+    let sc : Scenario := { subs := [[.noop], [.fetch]], closes := 0, observer := [], server := [.reply .ok true, .reply .ok true] }
+    let s := run fixed (init fixed sc) [4, 4, 4, 4, 5, 5, 5, 5, 1, 1, 0, 0, 0, 0, 0, 0, 0, 0, 0, 0, 0, 0, 0, 0, 0, 4, 5, 5]
+    ((s.cmd 0).sent, (s.cmd 1).sent, (s.cmd 0).ltag, (s.cmd 1).ltag) = (1, 1, 1, 2) := by
+  decide
+
+/-! ### the lockset discipline of the model's field-access table -/
+
+/-- every field of `Client`/`Command` that is written after `New` is accessed only under
+    `c.mutex`, or written only before its object is published (Command.tag, Command.done) -/
+theorem guarded_fields : guardedAll fixed = true := by decide
+
+/-- F21: tag/done were written after the command had been published in pendingCmds -/
+theorem f21_lockset_counterexample :
+    guardedField Legacy.f21 .cmdDone = false ∧ guardedField Legacy.f21 .cmdTagField = false := by decide
+
+/-- F26: search() read c.enabled without the mutex that handleEnabled holds when writing it -/
+theorem f26_enabled_lockset_counterexample : guardedField Legacy.f26enabled .enabled = false := by decide
 
 end GoImap.C13
